@@ -1,5 +1,6 @@
 import Girc.Proofs.TransCtcp
 import Girc.Proofs.TransEventHelpers
+import Girc.Proofs.TransPhase4B
 /-
   Tie (TieCtcp): the function bodies regenerated from the Go source on every run (Girc/Gen/Funcs.lean, written by
   tools/extract/translate.go) equal the hand-written models the property theorems of C14 are about, for ALL inputs.
@@ -43,5 +44,18 @@ example : Fn.Event_StripAction (some { command := PRIVMSG, params := [[0x23, 0x6
 example : Fn.Event_StripAction (some { command := PRIVMSG, params := [[0x23, 0x63],
     [0x01, 0x41, 0x43, 0x54, 0x49, 0x4F, 0x4E, 0x01]] }) = .error .sliceBounds := by rfl
 example : Fn.Event_StripAction (some { command := PRIVMSG, params := [[0x23, 0x63], [0x68, 0x69]] }) = .ok [0x68, 0x69] := by rfl
+
+/-! ### phase 4: `EncodeCTCP`, `(*CTCP).parseCMD` (pure on its argument; the receiver is a dropped handle) -/
+
+theorem tie_EncodeCTCP : ∀ c : CTCPEvent, Fn.EncodeCTCP (some c) = .ok (encodeCTCPRaw c.command c.text) :=
+  Proofs.Trans.EncodeCTCP_eq
+theorem tie_EncodeCTCP_nil : Fn.EncodeCTCP none = .ok [] := Proofs.Trans.EncodeCTCP_nil
+example : Fn.EncodeCTCP (some { source := none, command := [0x50, 0x49], text := [0x78], reply := false }) =
+    .ok [0x01, 0x50, 0x49, 0x20, 0x78, 0x01] := by rfl
+
+theorem tie_CTCP_parseCMD : ∀ cmd : Bytes, Fn.CTCP_parseCMD cmd = .ok (ctcpParseCmd cmd) := Proofs.Trans.CTCP_parseCMD_eq
+example : Fn.CTCP_parseCMD [0x70, 0x69, 0x6E, 0x67] = .ok [0x50, 0x49, 0x4E, 0x47] := by rfl   -- "ping" ↦ "PING"
+example : Fn.CTCP_parseCMD [0x2A] = .ok [0x2A] := by rfl                                       -- the wildcard
+example : Fn.CTCP_parseCMD [0x70, 0x2D] = .ok [] := by rfl                                     -- "p-" is rejected
 
 end Girc.Props.TieCtcp
